@@ -177,3 +177,16 @@ func diffShape(a, b string) string {
 	}
 	return "content"
 }
+
+func h8(s string) [8]byte {
+	var out [8]byte
+	x := uint64(14695981039346656037)
+	for i := 0; i < len(s); i++ {
+		x ^= uint64(s[i])
+		x *= 1099511628211
+	}
+	for i := 0; i < 8; i++ {
+		out[i] = byte(x >> (8 * i))
+	}
+	return out
+}
